@@ -289,6 +289,20 @@ APPEND = [Rule(r'\bret \+= string_printf\((%s), ([^;]*?)\);' % LIT, r'c11_append
 ESC_FOR = r'\bfor \([^{}]*\)'
 
 
+def _prelude(src, rel, sig, before):
+    """constant local declarations of the enclosing function that precede the loop (`[static] const T name = init;`): a loop body cut
+    out as a step function must still see them.  `static` is dropped (goto-instrument --dfcc havocs statics; they are constants)."""
+    from vf.lex import find_def
+    _, fbody, _, _ = find_def(src.text(rel), sig, 'function')
+    mo = re.search(before, fbody)
+    head = fbody[1:mo.start()] if mo else ''
+    decls = re.findall(r'(?:static\s+)?const\s+[^;{}()]*?=\s*[^;{}]*;', head)
+    out = ' '.join(re.sub(r'^static\s+', '', d) for d in decls)
+    for r in __import__('vf.lex', fromlist=['x']).GENERIC:
+        out = r.apply(out)
+    return out
+
+
 def escape_units(ctx, src):
     u = Unit(ctx, 'escape')
     SQ = r'string escape_quotes\(const string& s\)'
@@ -305,8 +319,10 @@ def escape_units(ctx, src):
                rules=RETSTR + [Rule('s.size()', 'vstr_size(s)', count=1),
                                Outline(ESC_FOR, esc_call('x', 'escape_controls_step(ret, s, x, escape_non_ascii);'))],
                loops={1: esc_loop('x', 'ESC_C_OK')}, nloops=1)
+    pre = _prelude(src, STR, SU, r'\bfor \(')
     u.block(src, STR, SU, ESC_FOR, new_header='void escape_url_step(vstr* ret, char ch, bool escape_slash)',
-            rules=[Rule(r'\bisalnum\(', 'c11_isalnum(', count=1, regex=True)] + APPEND)
+            rules=[Rule(r'\bisalnum\(', 'c11_isalnum(', count=None, regex=True), Rule(r'\bstrchr\(', 'c11_strchr(', count=None, regex=True),
+                   Rule(r'\bmemchr\(', 'c11_memchr(', count=None, regex=True), Rule(r'^\{', lambda mo: '{ ' + pre, count=1, regex=True)] + APPEND)
     # range-for over the string lowered to an index loop (verif_i); `char ch` is the element copy
     u.function(src, STR, SU, new_header='void escape_url(vstr* ret, const vstr* s, bool escape_slash)',
                rules=RETSTR + [Outline(r'\bfor \(char ch : s\)', esc_call('verif_i', 'char ch = s->data[verif_i]; escape_url_step(ret, ch, escape_slash);'),
